@@ -8,7 +8,8 @@
 From H264 Require Import Base.Prelude Model.BitReader Model.Parser Model.RefNal Model.Source Model.Sps Model.SpsDerived Model.Context Model.Pps
      Model.Slice Model.Sei Model.Avcc Model.AnnexB
      Proofs.C07_proofs Proofs.Wp Proofs.SpsInv Proofs.PpsInv Proofs.SliceInv Proofs.SeiProofs Proofs.C09_proofs
-     Proofs.C13_proofs Proofs.C15_proofs Proofs.AnnexB_push Proofs.AnnexB_compose.
+     Proofs.C13_proofs Proofs.C15_proofs Proofs.AnnexB_push Proofs.AnnexB_compose
+     Model.Rbsp Proofs.RbspReader Proofs.RbspStream.
 Local Open Scope N_scope.
 
 (* bit reader: ue / se never overflow their u32 / i32 arithmetic *)
@@ -97,3 +98,25 @@ Proof.
   intros k Hk. destruct (consume_spec r k Hwf Hk) as (r' & E & _). rewrite E. exact I.
 Qed.
 Print Assumptions C03_refnal.
+
+(* RBSP byte reader: any history of fill_buf / consume / read on any chunking and window, and the
+   one-shot decoder on any non-empty NAL, end in OK or an io error - never a panic, never out of fuel
+   (the fuel bound is the termination measure of the fill loop, so the loop always terminates) *)
+Theorem C03_byte_reader : forall head tl c skip mf ops,
+  head <> [] -> Forall (fun ch => ch <> []) tl -> 1 <= mf -> skip <= N.of_nat (length (head ++ concat tl)) ->
+  no_abort (snd (fst (brun (br_new (rdr_of_nal head tl c) skip mf) ops []))).
+Proof.
+  intros head tl c skip mf ops H1 H2 H3 H4. pose proof (stream_history head tl c skip mf ops H1 H2 H3 H4) as H.
+  destruct (brun (br_new (rdr_of_nal head tl c) skip mf) ops []) as [[d o] r]. cbn [fst snd].
+  destruct (Spec.Escape.unescape (payload head tl skip)); destruct H as [_ H]; destruct o as [?|e| |]; cbn; auto.
+Qed.
+Print Assumptions C03_byte_reader.
+
+Theorem C03_decode_nal : forall nal, N.of_nat (length nal) <= usize_max -> no_abort (decode_nal nal).
+Proof.
+  intros nal Hl. destruct nal as [|n0 nt]; [vm_compute; exact I|].
+  rewrite decode_nal_correct by (discriminate || exact Hl). unfold decode_nal_spec.
+  destruct (Spec.Escape.unescape (List.tl (n0 :: nt))) as [p|]; [|exact I].
+  destruct (Nat.eqb (length p) (length (List.tl (n0 :: nt)))); exact I.
+Qed.
+Print Assumptions C03_decode_nal.
